@@ -40,16 +40,35 @@ static void record(const char * kind, const char * lit, size_t n, const char * e
     nrec++;
 }
 
+/* process state the application may leave behind, like errno: the floating-point control word. With flush-to-zero / denormals-are-zero
+ * switched on (-ffast-math start-up code, Intel compilers, RunFast mode) a literal WITHOUT suffix still denotes its own value: decoding it
+ * needs no floating-point arithmetic at all (glibc's strtod assembles the result with integers). Suffixed literals are multiplied by the
+ * FPU and are not run in this mode. */
+#if defined(__x86_64__)
+#include <xmmintrin.h>
+static int g_ftz;
+#define FTZ_ON() unsigned csr_ = _mm_getcsr(); if (g_ftz && !(VH_LIB_NO_STRTOF && cmd == CMD_F)) _mm_setcsr(csr_ | 0x8040u) /* a library without strtof narrows with the FPU: not run in this mode either */
+#define FTZ_OFF() _mm_setcsr(csr_)
+#else
+static int g_ftz;
+#define FTZ_ON() (void) 0
+#define FTZ_OFF() (void) 0
+#endif
+
 /* runs "<CMD> <literal>\n"; returns the step record or NULL (violation already reported through key prefix) */
 static const vh_stepres_t * decode(int cmd, const char * lit, size_t n, const char * cls) {
     char key[128];
     vh_ctx_clear_capture(V);
     vh_buf_reset(&msg); vh_buf_adds(&msg, cmdname[cmd]); vh_buf_addc(&msg, ' '); vh_buf_add(&msg, lit, n); vh_buf_addc(&msg, '\n');
+    {
+        FTZ_ON();
 #if VH_ASAN
-    vh_input(V, msg.p, msg.len);
+        vh_input(V, msg.p, msg.len);
 #else
-    SCPI_Input(V->ctx, msg.p, (int) msg.len);
+        SCPI_Input(V->ctx, msg.p, (int) msg.len);
 #endif
+        FTZ_OFF();
+    }
     vh_eval(1);
     if (V->ninv != 1 || V->inv[0].nsteps_done != 1 || !V->inv[0].res[0].ok || V->nerrs) {
         snprintf(key, sizeof key, "C04:literal-not-accepted:%s:%s", rdname[cmd], cls);
@@ -137,7 +156,10 @@ static void p0_run(uint64_t idx, vh_rng_t * rng) {
     setup();
     gen_decimal(rng, &l, 0);
     vh_case_desc("decimal literal \"%s\"", vh_esc(l.text, l.n));
+    g_ftz = (idx % 4 == 1);
+    if (g_ftz) { double d_ = strtod(l.stripped, NULL); vh_count("fp.decoded_with_flush_to_zero_mode_on", 1); if (d_ != 0 && fabs(d_) < 2.2250738585072014e-308) vh_count("fp.subnormal_literal_decoded_with_flush_to_zero_mode_on", 1); }
     check_fp(&l, (idx % 8) == 0 || l.has_ws);
+    g_ftz = 0;
     vh_distinct(vh_hash(l.text, l.n, 4));
     { char cn[64]; snprintf(cn, sizeof cn, "class.%s", l.cls); vh_count(cn, 1); }
     if (vh_want_sample()) vh_sample("\"%s\" -> double %a float %a", vh_esc(l.text, l.n), strtod(l.stripped, NULL), (double) strtof(l.stripped, NULL));
@@ -270,7 +292,7 @@ static void pend_run(uint64_t idx, vh_rng_t * rng) { (void) idx; (void) rng; if 
 int main(int argc, char ** argv) {
     static const vh_phase_t phases[] = { { "decimal literals", p0_count, p0_run }, { "integer literals", p1_count, p1_run }, { "suffixes, specials, booleans", p2_count, p2_run },
         { "rounding boundaries", p3_count, p3_run }, { "close records", pend_count, pend_run } };
-    vh_decoy_enable(9); vh_require("decoy.messages_run_on_a_second_context"); vh_require("fp.double_ok"); vh_require("fp.float_ok"); vh_require("fp.number_ok"); vh_require("fp.literal_with_white_space"); vh_require("int.int32_ok"); vh_require("int.uint64_ok");
+    vh_decoy_enable(9); vh_require("decoy.messages_run_on_a_second_context"); vh_require("fp.double_ok"); vh_require("fp.subnormal_literal_decoded_with_flush_to_zero_mode_on"); vh_require("fp.float_ok"); vh_require("fp.number_ok"); vh_require("fp.literal_with_white_space"); vh_require("int.int32_ok"); vh_require("int.uint64_ok");
     vh_require("units.suffix_ok"); vh_require("special.mnemonic_ok"); vh_require("class.leading-point"); vh_require("class.trailing-point"); vh_require("class.with-exponent");
     return vh_main(argc, argv, "C04", phases, 5);
 }
